@@ -72,6 +72,7 @@ func c16ProbeMain(c *ctx) {
 func c16Probe(qs []c16Query) map[string]string {
 	ans := map[string]string{}
 	rest := qs
+	ndiv := 0
 	for len(rest) > 0 {
 		var keys []string
 		for _, q := range rest {
@@ -96,6 +97,13 @@ func c16Probe(qs []c16Query) map[string]string {
 		}
 		ans[rest[n].key()] = "diverges" // the first unanswered query killed the child (deadline or memory)
 		rest = rest[n+1:]
+		if ndiv++; ndiv >= 6 {
+			// enough evidence; every further diverging call costs up to the deadline
+			for _, q := range rest {
+				ans[q.key()] = "skipped"
+			}
+			break
+		}
 	}
 	return ans
 }
@@ -130,6 +138,10 @@ func c16AnyQueries(c *ctx, d *Driver, impl *[]string) {
 	ans := c16Probe(qs)
 	for _, q := range qs {
 		a := ans[q.key()]
+		if a == "skipped" {
+			r.hist("anyquery.skipped-after-6-diverging")
+			continue
+		}
 		d.add("c16.reg2bins %d %d %d %d", q.Beg, q.End, q.MinShift, q.Depth)
 		*impl = append(*impl, a)
 		r.eval("anyq:"+q.key(), true)
@@ -150,6 +162,10 @@ func c16AnyQueries(c *ctx, d *Driver, impl *[]string) {
 	bans := c16Probe(bq)
 	for _, q := range bq {
 		a := bans[q.key()]
+		if a == "skipped" {
+			r.hist("anyquery.skipped-after-6-diverging")
+			continue
+		}
 		d.add("c16.bins %d %d", q.Beg, q.End)
 		*impl = append(*impl, a)
 		r.eval("anyq:bai:"+q.key(), true)
